@@ -712,8 +712,8 @@ def gen_rt(seed: int, tier: str = "quick") -> Dict[str, Any]:
             s["events"] = evs
             s["set_events"] = True
     for s in sims:
-        if s["transport"] in ("gated", "stock") and s["type"] != "time-based" and rng.random() < 0.25:
-            # an in-process simulator that sets events for itself from inside step()
+        if s["transport"] in ("gated", "stock") and rng.random() < 0.25:
+            # an in-process simulator (of any type) that sets events for itself from inside step()
             s["stub"] = "async"
             s["beh"]["async_calls"] = [{"kind": "set_event", "p": rng.choice([0.3, 0.6]),
                                         "t": rng.choice([1, 2, 3]), "reraise": True}]
